@@ -1031,6 +1031,14 @@ func (u *Unit) loopSpec(n int) *LoopSpec {
 }
 
 func (u *Unit) checkInvs(st *State, n int, ls *LoopSpec, phase string, scopePos token.Pos) {
+	if phase == "init" {
+		// snapshot for loopentry(): the state in which the loop is first reached
+		snap := st.clone()
+		if st.loopEntry == nil {
+			st.loopEntry = map[int]*State{}
+		}
+		st.loopEntry[n] = snap
+	}
 	for _, inv := range ls.Invs {
 		v, q := u.evalSpecBool(st, inv.E, u.specEnvLocal(st, scopePos, n), false)
 		u.oblige(st, fmt.Sprintf("loop%d.inv.%d.%s", n, inv.N, phase), "inv."+phase, inv.Text, v, q)
